@@ -5,6 +5,7 @@ C06 — The token ring recovers from lost stations, lost tokens and corrupted tr
 import ProfiVerif.Props.C11
 import ProfiVerif.Props.C15
 import ProfiVerif.Props.C16
+import ProfiVerif.Props.C02
 
 namespace PV.C06
 open PV
